@@ -4,14 +4,6 @@ From Coq Require Import List NArith Arith Bool Lia.
 Import ListNotations.
 From Mos Require Import model.SymGraph model.Analysis spec.NavSpec proofs.SymGraphProofs.
 
-Definition without (is_extra : edge -> bool) (g : graph) : graph := filter (fun e => negb (is_extra e)) g.
-
-Definition node_of (g : graph) (n : node) : Prop := exists e, In e g /\ (e_src e = n \/ e_dst e = n).
-
-(* the class of the known finding: an identifier of the path is the name of a greedy-only definition *)
-Definition Known_greedy_untaken_definition (is_extra : edge -> bool) (g' : graph) (p : path) : bool :=
-  existsb (fun e => is_extra e && existsb (ident_eqb (e_lbl e)) p) g'.
-
 Section Greedy.
   Variables (is_extra : edge -> bool) (g' : graph).
   Let g := without is_extra g'.
